@@ -510,16 +510,23 @@ def private_residual(repo, res, canon, f, rc, sc):
                 continue
             last_pub = None
             last_upd = None
+            holders = set()       # locals that hold the residual the sender returned in this step
+            pub_holds = False
             for i, e in enumerate(seg):
                 if e.kind == 'stmt' and isinstance(e.node, ast.Assign):
                     tgt = canon.c(e.node.targets[0], fr)
                     if tgt == pub:
                         last_pub = (i, e.node)
+                        pub_holds = isinstance(e.node.value, ast.Name) and e.node.value.id in holders
                     if isinstance(e.node.value, ast.Call) and call_name(e.node.value) == 'transfer_observation':
                         last_upd = (i, e.node)
+                        holders = {t.id for t in e.node.targets if isinstance(t, ast.Name)}
+                    elif isinstance(e.node.value, ast.Name) and e.node.value.id in holders:
+                        holders |= {t.id for t in e.node.targets if isinstance(t, ast.Name)}     # a copy
+                    else:
+                        holders -= {t.id for t in e.node.targets if isinstance(t, ast.Name)}
             if last_pub and last_upd:
-                okp = last_pub[0] > last_upd[0] and isinstance(last_pub[1].value, ast.Name) and isinstance(
-                    last_upd[1].targets[0], ast.Name) and last_pub[1].value.id == last_upd[1].targets[0].id
+                okp = last_pub[0] > last_upd[0] and pub_holds
                 (res.ok if okp else res.bad)(
                     'C18.V8', f, last_pub[1], '%s publishes the residual after updating it' % f.name,
                     'ok' if okp else 'the pending-transfer volume seen by the buffer loop is written before this step\'s '
